@@ -57,6 +57,9 @@ type schedPlan struct {
 	// Warm: calls made sequentially before the concurrent callers start; WarmJump: simulated idle ms after them
 	Warm     []plan.Op `json:"warm,omitempty"`
 	WarmJump int64     `json:"warm_jump_ms,omitempty"`
+	// GoMaxProcs: the GOMAXPROCS the process starts with (0 = 4). The simulation itself does not depend on it;
+	// a tree that sizes something by runtime.GOMAXPROCS or NumCPU does.
+	GoMaxProcs int `json:"gomaxprocs,omitempty"`
 }
 
 type schedStats struct {
@@ -216,7 +219,11 @@ func (g *c12Engine) runPlan(sp *schedPlan, env ...string) (*schedOut, *schedVerd
 		return nil, nil, err
 	}
 	racePath := filepath.Join(d, "race")
-	env = append([]string{"GORACE=halt_on_error=1 exitcode=66 atexit_sleep_ms=0 log_path=" + racePath, "GOMAXPROCS=4"}, env...)
+	gmp := 4
+	if sp.GoMaxProcs > 0 {
+		gmp = sp.GoMaxProcs
+	}
+	env = append([]string{"GORACE=halt_on_error=1 exitcode=66 atexit_sleep_ms=0 log_path=" + racePath, "GOMAXPROCS=" + strconv.Itoa(gmp)}, env...)
 	bin := g.bin
 	cold := sp.Preinit && g.binCold != "" && atomic.LoadInt32(&g.noCold) == 0
 	if cold {
@@ -679,6 +686,9 @@ func genSchedPlan(seed uint64, pool []plan.Op, byLang map[int][]int, neutral []i
 			n := r.Range(5, 8)
 			if r.Intn(3) == 0 { // a crowd: more callers than any plausible fixed-size arena, semaphore or shard count
 				n = r.Range(9, 40)
+				if r.Intn(4) == 0 {
+					n = r.Range(65, 100) // ... more than the bits of a word
+				}
 			}
 			for t := 0; t < n; t++ {
 				ops := []plan.Op{pool[news[r.Intn(len(news))]]}
@@ -886,6 +896,9 @@ func genSchedPlan(seed uint64, pool []plan.Op, byLang map[int][]int, neutral []i
 		sc.PoolSeed = r.Uint64() | 1
 	}
 	sp.Schedule = sc
+	if r.Intn(5) == 0 { // the size of the machine as seen by the runtime
+		sp.GoMaxProcs = []int{1, 2, 8, 16}[r.Intn(4)]
+	}
 	return sp
 }
 
@@ -1149,7 +1162,7 @@ func CheckC12(e *Env) (int, error) {
 		"raw_violations":                         len(viols),
 		"outcome_digest":                         od.String(),
 		"run_budget":                             map[string]interface{}{"runs_requested": maxRuns, "wall_cap_s": budget.Seconds(), "stopped_by_wall_cap": runs < maxRuns && len(viols) < 12},
-		"bounds":                                 "2-8 tasks x 1-4 calls (4% of runs: a crowd of 9-48 tasks x 1 call), <= 2e6 steps, no preemption inside standard-library or x/ calls (races there are still detected: detection is happens-before based)",
+		"bounds":                                 "2-8 tasks x 1-4 calls (4% of runs: a crowd of 9-48 tasks x 1 call; of the NewMnemonic-heavy runs a third park 9-40 and a twelfth 65-100 callers inside the device read; a fifth of all runs start with GOMAXPROCS 1, 2, 8 or 16 instead of 4), <= 2e6 steps, no preemption inside standard-library or x/ calls (races there are still detected: detection is happens-before based)",
 	}
 	if err := e.WriteEvidence("C12", "exploration", cov, []string{
 		"the Go race detector is sound for what it reports and incomplete (bounded shadow history)",
